@@ -2,6 +2,7 @@
 Spec: spec/Introspect.tla (XML event stream, SAX handler automaton, known-interface cache)."""
 import random
 
+from . import fakes  # noqa: F401  (installs the quiet log observer, repo path)
 from . import core, tlc, refwire
 from .tlaval import norm
 
